@@ -16,13 +16,16 @@ import (
 // ---------------------------------------------------------------------------------------------
 // modifies sets
 
+// MemRange: array object Arr, optionally restricted to element indexes [Lo, Hi).
+type MemRange struct{ Arr, Lo, Hi *Term }
+
 type ModSet struct {
 	All      bool
 	Ghosts   map[string]bool
 	HeapAll  map[string]bool
 	HeapRefs map[string][]*Term
 	MemAll   map[string]bool
-	MemRefs  map[string][]*Term
+	MemRefs  map[string][]MemRange
 	Globals  map[*ssa.Global]bool
 	Alloc    bool
 	heapT    map[string]types.Type
@@ -31,7 +34,7 @@ type ModSet struct {
 
 func newModSet() *ModSet {
 	return &ModSet{Ghosts: map[string]bool{}, HeapAll: map[string]bool{}, HeapRefs: map[string][]*Term{}, MemAll: map[string]bool{},
-		MemRefs: map[string][]*Term{}, Globals: map[*ssa.Global]bool{}, heapT: map[string]types.Type{}, memT: map[string]types.Type{}}
+		MemRefs: map[string][]MemRange{}, Globals: map[*ssa.Global]bool{}, heapT: map[string]types.Type{}, memT: map[string]types.Type{}}
 }
 
 // buildModSet evaluates modifies clauses; locations are evaluated in ctx.cur (callers pass the pre-state).
@@ -61,7 +64,7 @@ func (e *Engine) addObjectFields(st *State, ms *ModSet, t types.Type, ref *Term)
 		}
 	case *types.Array:
 		k := typeKey(u.Elem())
-		ms.MemRefs[k] = append(ms.MemRefs[k], ref)
+		ms.MemRefs[k] = append(ms.MemRefs[k], MemRange{Arr: ref})
 		ms.memT[k] = u.Elem()
 	}
 }
@@ -109,14 +112,14 @@ func (e *Engine) addMod(ctx *EvalCtx, ms *ModSet, ex Expr) (err error) {
 			case SliceV:
 				et := v.T.Underlying().(*types.Slice).Elem()
 				k := typeKey(et)
-				ms.MemRefs[k] = append(ms.MemRefs[k], sv.Arr)
+				ms.MemRefs[k] = append(ms.MemRefs[k], MemRange{Arr: sv.Arr, Lo: sv.Off, Hi: BVBin("bvadd", sv.Off, sv.Cap)})
 				ms.memT[k] = et
 				return nil
 			case *Term:
 				if p, ok := v.T.Underlying().(*types.Pointer); ok {
 					if at, ok := p.Elem().Underlying().(*types.Array); ok {
 						k := typeKey(at.Elem())
-						ms.MemRefs[k] = append(ms.MemRefs[k], sv)
+						ms.MemRefs[k] = append(ms.MemRefs[k], MemRange{Arr: sv})
 						ms.memT[k] = at.Elem()
 						return nil
 					}
@@ -263,13 +266,28 @@ func (e *Engine) havoc(st *State, ms *ModSet) {
 		m := st.Mem(ms.memT[k])
 		st.Mems[k] = mapLeaves(m, func(t *Term) *Term { return Fresh("hv:"+k, t.Sort) })
 	}
-	for _, k := range keys(ms.MemRefs) {
+	var memKeys []string
+	for k := range ms.MemRefs {
+		memKeys = append(memKeys, k)
+	}
+	sort.Strings(memKeys)
+	for _, k := range memKeys {
 		if ms.MemAll[k] {
 			continue
 		}
 		m := st.Mem(ms.memT[k])
 		for _, r := range ms.MemRefs[k] {
-			m = mapLeaves(m, func(t *Term) *Term { return Store(t, r, Fresh("hv:"+k, t.Sort.Elem)) })
+			r := r
+			m = mapLeaves(m, func(t *Term) *Term {
+				na := Fresh("hv:"+k, t.Sort.Elem)
+				if r.Lo != nil {
+					T.fresh["q:h"]++
+					i := Var(fmt.Sprintf("h?%d", T.fresh["q:h"]), BV64)
+					old := Select(t, r.Arr)
+					st.Assume(Forall([]*Term{i}, Implies(Or(BVCmp("bvult", i, r.Lo), BVCmp("bvuge", i, r.Hi)), Eq(Select(na, i), Select(old, i)))))
+				}
+				return Store(t, r.Arr, na)
+			})
 		}
 		st.Mems[k] = m
 	}
@@ -332,7 +350,7 @@ func (e *Engine) checkFrame(p *Path, ms *ModSet, entry *State, exitKind string, 
 		hk = append(hk, k)
 	}
 	sort.Strings(hk)
-	check := func(kind, key string, leaf *Term, all bool, refs []*Term) {
+	check := func(kind, key string, leaf *Term, all bool, refs []*Term, ranges []MemRange) {
 		if all {
 			return
 		}
@@ -352,14 +370,28 @@ func (e *Engine) checkFrame(p *Path, ms *ModSet, entry *State, exitKind string, 
 			for _, r := range refs {
 				alts = append(alts, Eq(ix, r))
 			}
-			// a store of the value already there is no modification
-			alts = append(alts, Eq(Select(leaf, ix), Select(root, ix)))
-			e.oblige(p, "frame", exitKind+":"+key, pos, Or(alts...), "modifies")
+			if len(ranges) > 0 {
+				T.fresh["q:f"]++
+				k := Var(fmt.Sprintf("f!%d", T.fresh["q:f"]), BV64)
+				same := Eq(Select(Select(leaf, ix), k), Select(Select(root, ix), k))
+				for _, r := range ranges {
+					if r.Lo == nil {
+						alts = append(alts, Eq(ix, r.Arr))
+					} else {
+						alts = append(alts, And(Eq(ix, r.Arr), Or(And(BVCmp("bvule", r.Lo, k), BVCmp("bvult", k, r.Hi)), same)))
+					}
+				}
+				alts = append(alts, same)
+			} else {
+				// a store of the value already there is no modification
+				alts = append(alts, Eq(Select(leaf, ix), Select(root, ix)))
+			}
+			e.obligeKeep(p, "frame", exitKind+":"+key, pos, Or(alts...), "modifies")
 		}
 	}
 	for _, k := range hk {
 		for _, leaf := range leaves(st.Heaps[k]) {
-			check("heap", k, leaf, ms.HeapAll[k], ms.HeapRefs[k])
+			check("heap", k, leaf, ms.HeapAll[k], ms.HeapRefs[k], nil)
 		}
 	}
 	var mk []string
@@ -369,7 +401,7 @@ func (e *Engine) checkFrame(p *Path, ms *ModSet, entry *State, exitKind string, 
 	sort.Strings(mk)
 	for _, k := range mk {
 		for _, leaf := range leaves(st.Mems[k]) {
-			check("mem", k, leaf, ms.MemAll[k], ms.MemRefs[k])
+			check("mem", k, leaf, ms.MemAll[k], nil, ms.MemRefs[k])
 		}
 	}
 	for name, v := range st.Ghost {
@@ -655,6 +687,26 @@ func (e *Engine) applyContract(p *Path, fr *Frame, ct *Contract, what string, pk
 			env[n] = TV{V: args[i], T: tys[i]}
 			env[fmt.Sprintf("arg%d", i)] = TV{V: args[i], T: tys[i]}
 		}
+	}
+	// case splits requested by the contract: fork the path so that the condition is decided
+	for _, cs := range ct.Cases {
+		cctx := &EvalCtx{eng: e, pkg: pkg, cur: p.st, old: p.st, env: env}
+		t, err := cctx.EvalBool(cs.E)
+		if err != nil {
+			e.failObl("resolve", "cases@"+what, err.Error()+" at "+cs.Where())
+			p.done = true
+			return nil
+		}
+		t = p.st.Simp(t)
+		if t == True || t == False {
+			continue
+		}
+		p2 := p.clone()
+		p.st.Assume(t)
+		p2.st.Assume(Not(t))
+		forks := e.applyContract(p2, p2.top(), ct, what, pkg, sig, names, tys, args, dst, pos)
+		forks = append(forks, p2)
+		return append(forks, e.applyContract(p, fr, ct, what, pkg, sig, names, tys, args, dst, pos)...)
 	}
 	pre := p.st.Clone()
 	ctx := &EvalCtx{eng: e, pkg: pkg, cur: p.st, old: pre, env: env}
@@ -1224,5 +1276,11 @@ func (e *Engine) assumeParam(st *State, v Value, t types.Type, isRecv bool) {
 		}
 	case SliceV:
 		st.Assume(Select(st.Alloc, x.Arr))
+		st.Assume(BVCmp("bvule", x.Cap, maxData))
+	case StringV:
+		st.Assume(BVCmp("bvule", x.Len, maxData))
 	}
 }
+
+// A-SIZE: data handed to a function is at most 2^36 elements long; any slice is at most 2^40.
+var maxData = BVU(1<<36, 64)
